@@ -154,6 +154,13 @@ def slide_snap(slide, deep=True):
 
 
 def snapshot(prs, deep=True):
+    """Pure-JSON snapshot (int subclasses such as Length are flattened to int: they do not survive
+    copy.deepcopy, e.g. Pt(n) is re-constructed as Pt(emu))."""
+    import json
+    return json.loads(json.dumps(_snapshot(prs, deep), default=repr))
+
+
+def _snapshot(prs, deep=True):
     return {
         "size": [prs.slide_width, prs.slide_height],
         "slides": [slide_snap(s, deep) for s in prs.slides],
